@@ -223,7 +223,8 @@ def FFPost (c0 : CP) (s : State) : Prop :=
   VInv s ∧ cpf s = { c0 with frames := #[] } ∧ (curF s).fn = (c0.frames[c0.curFrame]!).fn
 
 macro "vm_fvc" : tactic => `(tactic| (
-  try simp only [wrap_iff, StepOk, StepExc, StepPre, VInvB, FFPost, VInv, curFn, curF, FailOk, FailExc] at *
+  try simp only [wrap_iff, StepOk, StepExc, StepPre, VInvB, FFPost, ThrowOk, ThrowExc, ThrowPre, RestSame, VInv, curFn, curF,
+    FailOk, FailExc] at *
   intros
   try simp only [cpf, cpx, cp, CP.mk.injEq] at *
   try simp_all +zetaDelta [stackSize, fn_setLast, fn_popHandler]
@@ -277,5 +278,18 @@ theorem execFinalizer_ok (np : Bool) : StepSpec np execFinalizer := by
   have ff := findFinally_spec
   step_gen [execFinalizer, sc, ff]
   all_goals (first | (vm_fvc; done) | trace_state)
+
+set_option maxHeartbeats 3200000 in
+theorem execThrow_ok (np : Bool) : StepSpec np execThrow := by
+  apply triple_of_fixed'; intro s0 hpre
+  have sc := setCurFrame_spec
+  have tf := throwF_spec False True
+  have fs := throwFuel_spec
+  have cd := fun hi lo c0 => clearDown_spec hi lo c0 False
+  step_gen [execThrow, sc, tf, fs, cd]
+  all_goals (first | (vm_fvc; done) | skip)
+  vm_fvc
+  have h0 := lastHandler_sp (hpre.1.1.get! _) (by assumption)
+  grind [fn_popHandler]
 
 end UgoVerif.Proofs.VM
